@@ -65,6 +65,7 @@ def jobs(seed=0):
                  native_cmd=["python3", "lemmas/q120_lemmas.py"], functions=[], timeout=900,
                  bound_note="z3 (z3-new 5.1 if present), linear integer arithmetic, constants read from the real q120_common.h"))
     J += bbc_jobs()
+    J += avx2_jobs(seed)
     J += ntt_jobs(seed)
     J.append(Job(name="q120.bbc.table_wf", props=["C10", "C04"], shape="S5", sources=[], harness="", entry="", kind="native",
                  native_cmd=["tools/bbc_table_check.sh"], functions=["vec_mat1col_product_bbc_precomp"], timeout=300,
@@ -126,6 +127,25 @@ def bbc_jobs():
                  cbmc_flags=["--no-signed-overflow-check"], functions=["q120_vec_mat1col_product_bbc_ref"], timeout=1800, solver="kissat",
                  tier="quick" if lane == 0 else "thorough",
                  bound_note="every ell <= 10000 (loop contract), ghost accumulators; step and final functions replaced by their contracts"))
+    # two-coefficient block forms (reference): same step / recombination contracts, NROWS calls per iteration; one run per
+    # tracked row and lane; ghost call counter, operand tie for term GI
+    for nrows, fn in ((2, "q120x2_vec_mat1col_product_bbc_ref"), (4, "q120x2_vec_mat2cols_product_bbc_ref")):
+        words = " && ".join("s[%d][%d] <= i * 8589934590ul" % (r, j) for r in range(nrows) for j in range(8))
+        for row in range(nrows):
+            for lane in range(4):
+                inv = ("i <= ell && CALLI == i && CALLR == 0 && FINR == 0 && %s && ((unsigned __int128)s[%d][%d] + (((unsigned __int128)s[%d][%d]) << 32)) == ACC[%d]"
+                       " && (GI < i ==> ((const char*)GX == (const char*)x + 64 * GI + %d && (const char*)GY == (const char*)y + %d * GI + %d))"
+                       % (words, row, 2 * lane, row, 2 * lane + 1, lane, 32 * (row & 1), 32 * nrows, 32 * row))
+                J.append(Job(name="q120.bbc.%s.row%d.lane%d" % (fn, row, lane), props=["C10", "C04", "C11", "C18"], shape="S1", sources=REF, harness="q120_bbc.c",
+                             entry="h_bbc_x2_ref", export_static=True, defines=dict(d, LANE=lane, LEAN_STEP=1, NROWS=nrows, GROW=row),
+                             enforce=[(fn, "bbc_x2_ref__c")],
+                             replace=[("__CPROVER_file_local_q120_arithmetic_ref_c_accum_mul_q120_bc", "accum_mul_x2__c"),
+                                      ("__CPROVER_file_local_q120_arithmetic_ref_c_accum_to_q120b", "accum_to_q120b_x2__c")],
+                             loops={fn: {"count": 1, "loops": [
+                                 {"id": 0, "assigns": "i, __CPROVER_object_whole(s), __CPROVER_object_whole(ACC), __CPROVER_object_whole(GTERM), CALLI, CALLR, GX, GY", "invariants": inv, "decreases": "ell - i"}]}},
+                             cbmc_flags=["--no-signed-overflow-check", "--object-bits", "10"], functions=[fn], timeout=1800, solver="race",
+                             tier="quick" if (lane == row % 4 and row in (0, nrows - 1)) else "thorough",
+                             bound_note="every ell <= 10000 (loop contract), tracked row %d lane %d; step and recombination replaced by their contracts" % (row, lane)))
     # a*a range proof (every ell <= 10000): the 4-lane inner loops are unwound before instrumentation (dfcc rejects a contract
     # on a loop nested in a contract loop), the outer loop carries the accumulator bounds, CBMC's unsigned-overflow checks
     # on every + and * of the function are the "never wraps" obligations.
@@ -156,6 +176,102 @@ def bbc_jobs():
                           "invariants": inv, "decreases": "4 * ell - i"}]}},
                      cbmc_flags=["--no-signed-overflow-check", "--unsigned-overflow-check"], functions=[fn], timeout=1200,
                      tier="thorough", solver="race", bound_note="every ell <= 10000, ANY 64-bit operands: the four partial sums stay below 3*ell*2^32, no unsigned operation of the function wraps; h=%d from the real constructor" % hb))
+    return J
+
+
+def avx2_jobs(seed=0):
+    """AVX2 products: range + functional for every ell (plain harness, non-dfcc loop contract, ghost state on the mul_epu32 model)"""
+    J = []
+    t = native_tables()
+    if not all(k in t for k in ("BBC_H", "BAA_H", "BBB_H")):
+        return J
+    AVX = ["q120/q120_arithmetic_avx2.c"]
+    m32, st = (1 << 32) - 1, (1 << 33) - 2
+    W = "(unsigned __CPROVER_bitvector[WB])"
+    ul = lambda v, j: "(unsigned long)%s[%d]" % (v, j)
+    xa = lambda idx: "((const unsigned long*)P__x)[%s]" % idx
+    ya = lambda idx: "((const unsigned long*)P__y)[%s]" % idx
+    lo = lambda e: "(%s & 4294967295ul)" % e
+    hi = lambda e: "(%s >> 32)" % e
+
+    def spec(prod, lane, row):
+        if prod == 0:
+            h = t["BAA_H"]
+            fn, per, xw, yw = "q120_vec_mat1col_product_baa_avx2", 1, 4, 4
+            accs = {"acc1": (1 << h) - 1, "acc2": (1 << (64 - h)) - 1}
+            assigns = "acc1, acc2"
+            summ = "%s%s + (%s%s << %d) == SHIM_MUL_SUM" % (W, ul("acc1", lane), W, ul("acc2", lane), h)
+            xv, yv = xa("4 * GI + %d" % lane), ya("4 * GI + %d" % lane)
+            rec = "SHIM_MUL_REC_A[0] == %s && SHIM_MUL_REC_B[0] == %s" % (lo(xv), lo(yv))
+        elif prod == 1:
+            h = t["BBB_H"]
+            fn, per, xw, yw = "q120_vec_mat1col_product_bbb_avx2", 4, 4, 4
+            accs = {"s1": m32, "s2": 3 * m32, "s3": 3 * m32, "s4": m32}
+            assigns = "s1, s2, s3, s4"
+            summ = "%s%s + (%s%s << 32) + (%s%s << 64) + (%s%s << 96) == SHIM_MUL_SUM" % (W, ul("s1", lane), W, ul("s2", lane), W, ul("s3", lane), W, ul("s4", lane))
+            xv, yv = xa("4 * GI + %d" % lane), ya("4 * GI + %d" % lane)
+            rec = ("SHIM_MUL_REC_A[0] == %s && SHIM_MUL_REC_B[0] == %s && SHIM_MUL_REC_A[1] == %s && SHIM_MUL_REC_B[1] == %s && "
+                   "SHIM_MUL_REC_A[2] == %s && SHIM_MUL_REC_B[2] == %s && SHIM_MUL_REC_A[3] == %s && SHIM_MUL_REC_B[3] == %s"
+                   % (lo(xv), lo(yv), lo(xv), hi(yv), hi(xv), lo(yv), hi(xv), hi(yv)))
+        else:
+            h = t["BBC_H"]
+            if prod == 2:
+                fn, per, xw, yw = "q120_vec_mat1col_product_bbc_avx2", 2, 4, 4
+                names, assigns = ["s1", "s2"], "s1, s2"
+                a0, a1, j0, jh, xi, yi = "s1", "s2", 0, 1, 0, 0
+            elif prod == 3:
+                fn, per, xw, yw = "q120x2_vec_mat1col_product_bbc_avx2", 4, 8, 8
+                names, assigns = ["s0", "s1", "s2", "s3"], "s0, s1, s2, s3, s8, s9, s10, s11, s12, s13, s14, s15"
+                a0, a1, j0, xi, yi = "s%d" % (2 * row), "s%d" % (2 * row + 1), row, row, row
+                jh = j0 + 2
+            else:
+                fn, per, xw, yw = "q120x2_vec_mat2cols_product_bbc_avx2", 8, 8, 16
+                names, assigns = ["s%d" % k for k in range(8)], "s0, s1, s2, s3, s4, s5, s6, s7, s8, s9, s12, s13, s14, s15"
+                a0, a1, j0, xi, yi = "s%d" % (2 * row), "s%d" % (2 * row + 1), (row & 1) * 4 + (row >> 1), row & 1, row
+                jh = j0 + 2
+            accs = {n: st for n in names}
+            summ = "%s%s + (%s%s << 32) == SHIM_MUL_SUM" % (W, ul(a0, lane), W, ul(a1, lane))
+            xv, yv = xa("%d * GI + %d" % (xw, 4 * xi + lane)), ya("%d * GI + %d" % (yw, 4 * yi + lane))
+            rec = "SHIM_MUL_REC_A[%d] == %s && SHIM_MUL_REC_B[%d] == %s && SHIM_MUL_REC_A[%d] == %s && SHIM_MUL_REC_B[%d] == %s" % (j0, lo(xv), j0, lo(yv), jh, hi(xv), jh, hi(yv))
+        # bounds for the job's lane only: the overflow obligations of the other three lanes are waived by name in this run and
+        # are the obligations of the sibling runs (one run per lane)
+        bounds = " && ".join("%s <= i * %dul" % (ul(n, lane), b) for n, b in accs.items())
+        inv = ("i <= ell && (const char*)x_ptr == (const char*)P__x + %d * i && (const char*)y_ptr == (const char*)P__y + %d * i && SHIM_MUL_IT == i && SHIM_MUL_J == 0 && %s && %s && (GI < i ==> (%s))"
+               % (8 * xw, 8 * yw, bounds, summ, rec)).replace("WB", "192" if prod == 1 else "128")
+        asg = ("i, x_ptr, y_ptr, %s, SHIM_MUL_IT, SHIM_MUL_J, SHIM_MUL_SUM, __CPROVER_object_whole(SHIM_MUL_REC_A), __CPROVER_object_whole(SHIM_MUL_REC_B), "
+               "__CPROVER_object_whole(SHIM_MUL_FIN_A), __CPROVER_object_whole(SHIM_MUL_FIN_B), __CPROVER_object_whole(SHIM_MUL_FIN_P)" % assigns)
+        return fn, h, {"id": 0, "assigns": asg, "invariants": inv, "decreases": "ell - i"}
+
+    names = {0: "baa", 1: "bbb", 2: "bbc", 3: "x2_1col", 4: "x2_2cols"}
+    for prod in range(5):
+        rows = {3: 2, 4: 4}.get(prod, 1)
+        for row in range(rows):
+            for lane in range(4):
+                fn, h, loop = spec(prod, lane, row)
+                quick = (lane == (seed + prod + row) % 4) and (row == (seed % rows))
+                J.append(Job(name="q120.avx2.%s.row%d.lane%d" % (names[prod], row, lane), props=["C04", "C10", "C07", "C11", "C18"], shape="S1", sources=AVX, harness="q120_avx2.c",
+                             entry="h_avx2_prod", no_dfcc=True, avx=True, strict_shim=2, defines={"PROD": prod, "LANE": lane, "ROW": row, "HH": h, "SHIM_WIDE_BITS": 192 if prod == 1 else 128},
+                             pre_unwindset=["__builtin_ia32_pmuludq256.0:5", "__builtin_ia32_psrlqi256.0:5", "__builtin_ia32_psllqi256.0:5", "table.0:5", "weights.0:9"],
+                             loops={fn: {"count": 1, "loops": [loop]}},
+                             cbmc_flags=["--no-signed-overflow-check", "--unsigned-overflow-check"], functions=[fn], timeout=1800, solver="race",
+                             waive=[r"arithmetic overflow on unsigned \+ in \{.*\}\[%dl\] \+ \{.*\}\[%dl\]$" % (o, o) for o in range(4) if o != lane],
+                             tier="quick" if quick else "thorough",
+                             bound_note="every ell <= 10000 (loop contract, non-dfcc route), any 64-bit lanes; h=%d from the real constructor (S5); ghost sums on the mul_epu32 model" % h))
+    # bounded stand-in (S4): AVX2 == reference, bit for bit, for ell = 0..7 (every operand value); robust against a restructured
+    # row loop (unrolling, tails), where the loop contract above stops with an extraction break
+    for prod in range(5):
+        rows = {3: 2, 4: 4}.get(prod, 1)
+        h = t["BAA_H"] if prod == 0 else t["BBB_H"] if prod == 1 else t["BBC_H"]
+        for ell in range(0, 8):
+            for row in range(rows):
+                for lane in range(4):
+                    quick = lane == (seed + ell + row) % 4 and row == (seed + ell) % rows
+                    J.append(Job(name="q120.avx2_eq_ref.%s.ell%d.row%d.lane%d" % (names[prod], ell, row, lane), props=["C07", "C10", "C04"], shape="S4",
+                                 sources=AVX + ["q120/q120_arithmetic_ref.c"], harness="q120_avx2.c", entry="h_avx2_eq", no_dfcc=True, avx=True,
+                                 defines={"PROD": prod, "LANE": lane, "ROW": row, "HH": h, "ELL": ell},
+                                 cbmc_flags=["--no-signed-overflow-check", "--unwind", str(max(10, 16 * ell + 2)), "--unwinding-assertions"], functions=[spec(prod, lane, row)[0]],
+                                 timeout=900, solver="race", tier="quick" if quick else "thorough",
+                                 bound_note="ell = %d rows, every operand value; bit-identical to the reference product" % ell))
     return J
 
 
